@@ -107,10 +107,7 @@ func (r *Raft) onVoteRequest(req *voteReq) (rpcResult, error) {
 	// RequestVote requests used for leadership transfer can include
 	// a special flag to indicate this behavior:
 	// "I have permission to disrupt the leader—it told me to!"
-	if !req.transfer && r.leader != 0 {
-		if req.src == r.leader {
-			return success, nil
-		}
+	if !req.transfer && r.leader != 0 && req.src != r.leader {
 		return leaderKnown, nil
 	}
 
